@@ -45,10 +45,10 @@ theorem get_map_upd (l : List (Mod × Cached)) (m k : Mod) (f : Cached → Cache
 /-- the modules whose presence or absence the state has recorded -/
 def foot (st : St) (m : Mod) : Prop := (get st.mcache m).isSome = true ∨ m ∈ st.missing
 
-def Mono (st st' : St) : Prop := ∀ m, foot st m → foot st' m
+def FMono (st st' : St) : Prop := ∀ m, foot st m → foot st' m
 
-theorem Mono.refl (st : St) : Mono st st := fun _ h => h
-theorem Mono.trans {a b c : St} (h1 : Mono a b) (h2 : Mono b c) : Mono a c :=
+theorem FMono.refl (st : St) : FMono st st := fun _ h => h
+theorem FMono.trans {a b c : St} (h1 : FMono a b) (h2 : FMono b c) : FMono a c :=
   fun m h => h2 m (h1 m h)
 
 theorem foot_addMissing (st : St) (m : Mod) : foot (addMissing st m) m := by
@@ -57,7 +57,7 @@ theorem foot_addMissing (st : St) (m : Mod) : foot (addMissing st m) m := by
   · simp [h, foot]
   · simp [h, foot]
 
-theorem mono_addMissing (st : St) (m : Mod) : Mono st (addMissing st m) := by
+theorem fmono_addMissing (st : St) (m : Mod) : FMono st (addMissing st m) := by
   intro k hk
   unfold addMissing
   by_cases h : m ∈ st.missing
@@ -89,10 +89,10 @@ theorem load_foot (D : Disk) (st : St) (m : Mod) : foot (load D st m).2 m := by
   | none => exact foot_addMissing st m
   | some f => simp [foot, get_cons]
 
-theorem load_mono (D : Disk) (st : St) (m : Mod) : Mono st (load D st m).2 := by
+theorem fload_mono (D : Disk) (st : St) (m : Mod) : FMono st (load D st m).2 := by
   unfold load
   cases get D m with
-  | none => exact mono_addMissing st m
+  | none => exact fmono_addMissing st m
   | some f =>
     intro k hk
     simp only [foot, get_cons] at hk ⊢
@@ -100,13 +100,13 @@ theorem load_mono (D : Disk) (st : St) (m : Mod) : Mono st (load D st m).2 := by
     · simp [h]
     · simpa [h] using hk
 
-theorem getModule_mono (D : Disk) (st : St) (m : Mod) : Mono st (getModule D st m).2 := by
+theorem fgetModule_mono (D : Disk) (st : St) (m : Mod) : FMono st (getModule D st m).2 := by
   unfold getModule
   by_cases hctx : m ∈ st.ctx
-  · simp [hctx, Mono.refl]
+  · simp [hctx, FMono.refl]
   · simp only [hctx, if_false]
     cases hg : get st.mcache m with
-    | none => exact load_mono D st m
+    | none => exact fload_mono D st m
     | some c =>
       simp only
       by_cases hch : changedB st.lt (stat D m) c.mtime = true
@@ -114,13 +114,13 @@ theorem getModule_mono (D : Disk) (st : St) (m : Mod) : Mono st (getModule D st 
         intro k hk
         by_cases hkm : k = m
         · subst hkm; exact load_foot D _ k
-        · apply load_mono
+        · apply fload_mono
           simp only [foot, get_filter_ne, hkm, if_false] at hk ⊢
           exact hk
       · rw [if_neg hch]
         intro k hk; exact hk
 
-theorem updCached_mono (st : St) (m : Mod) (f : Cached → Cached) : Mono st (updCached st m f) := by
+theorem fupdCached_mono (st : St) (m : Mod) (f : Cached → Cached) : FMono st (updCached st m f) := by
   intro k hk
   simp only [foot, updCached, get_map_upd] at hk ⊢
   by_cases h : k = m
@@ -129,6 +129,52 @@ theorem updCached_mono (st : St) (m : Mod) (f : Cached → Cached) : Mono st (up
     · left; simp only [if_true]; cases hg : get st.mcache k <;> simp_all
     · exact Or.inr hk
   · simpa [h] using hk
+
+@[simp] theorem addMissing_norm (st : St) (m : Mod) : (addMissing st m).norm = st.norm := by
+  unfold addMissing; split <;> rfl
+@[simp] theorem addMissing_legacy (st : St) (m : Mod) : (addMissing st m).legacyNorm = st.legacyNorm := by
+  unfold addMissing; split <;> rfl
+
+theorem load_norm (D : Disk) (st : St) (m : Mod) : (load D st m).2.norm = st.norm := by
+  unfold load; split <;> simp
+
+theorem getModule_norm (D : Disk) (st : St) (m : Mod) : (getModule D st m).2.norm = st.norm := by
+  unfold getModule
+  split
+  · rfl
+  · split
+    · split
+      · rw [load_norm]
+      · rfl
+    · rw [load_norm]
+
+/-- nothing leaves `_norm_cache` -/
+def NMono (st st' : St) : Prop :=
+  ∀ root ps, Norm.lookup st.norm root = some ps → Norm.lookup st'.norm root = some ps
+
+/-- the state has looked at more, and forgotten nothing it had looked at -/
+structure Mono (st st' : St) : Prop where
+  foot : FMono st st'
+  norm : NMono st st'
+
+theorem Mono.refl (st : St) : Mono st st := ⟨FMono.refl st, fun _ _ h => h⟩
+theorem Mono.trans {a b c : St} (h1 : Mono a b) (h2 : Mono b c) : Mono a c :=
+  ⟨h1.foot.trans h2.foot, fun r ps h => h2.norm r ps (h1.norm r ps h)⟩
+
+theorem mono_of_norm_eq {st st' : St} (h1 : FMono st st') (h2 : st'.norm = st.norm) : Mono st st' :=
+  ⟨h1, fun r ps h => by rw [h2]; exact h⟩
+
+theorem mono_addMissing (st : St) (m : Mod) : Mono st (addMissing st m) :=
+  mono_of_norm_eq (fmono_addMissing st m) (by simp)
+
+theorem load_mono (D : Disk) (st : St) (m : Mod) : Mono st (load D st m).2 :=
+  mono_of_norm_eq (fload_mono D st m) (load_norm D st m)
+
+theorem getModule_mono (D : Disk) (st : St) (m : Mod) : Mono st (getModule D st m).2 :=
+  mono_of_norm_eq (fgetModule_mono D st m) (getModule_norm D st m)
+
+theorem updCached_mono (st : St) (m : Mod) (f : Cached → Cached) : Mono st (updCached st m f) :=
+  mono_of_norm_eq (fupdCached_mono st m f) rfl
 
 /-- a function on states that returns a state whose footprint is at least as large -/
 def GrowsE {α β : Type} (f : St → α → Except Err (β × St)) : Prop :=
@@ -139,12 +185,29 @@ theorem normRef_mcache (D : Disk) (st : St) (dir : Mod) (up : Nat) (m : Mod) :
     (normRef D st dir up m).2.ctx = st.ctx := by
   unfold normRef; exact ⟨rfl, rfl, rfl⟩
 
+theorem lookup_cons (k : Norm.Dir) (v : List Nat) (c : Norm.Cache) (d : Norm.Dir) :
+    Norm.lookup ((k, v) :: c) d = if k = d then some v else Norm.lookup c d := rfl
+
 theorem normRef_mono (D : Disk) (st : St) (dir : Mod) (up : Nat) (m : Mod) :
     Mono st (normRef D st dir up m).2 := by
-  intro k hk
-  obtain ⟨h1, h2, _⟩ := normRef_mcache D st dir up m
-  simp only [foot, h1, h2] at hk ⊢
-  exact hk
+  refine ⟨?_, ?_⟩
+  · intro k hk
+    obtain ⟨h1, h2, _⟩ := normRef_mcache D st dir up m
+    simp only [foot, h1, h2] at hk ⊢
+    exact hk
+  · intro root ps h
+    unfold normRef Norm.normPackage
+    dsimp only
+    cases hl : Norm.lookup st.norm (Norm.dropLastN (up + 1 - 1) dir) with
+    | some ps0 => exact h
+    | none =>
+      dsimp only
+      split
+      · exact h
+      · rw [lookup_cons]
+        by_cases hk : Norm.dropLastN (up + 1 - 1) dir = root
+        · rw [hk] at hl; rw [hl] at h; cases h
+        · rw [if_neg hk]; exact h
 
 theorem build_mono (D : Disk) (dir : Mod) (scope : St → Mod → Except Err (Option Table × St))
     (hs : GrowsE scope) : ∀ (src : Src) (st : St) (ln : Nat) (acc : Table) (t : Table) (st' : St),
